@@ -640,11 +640,11 @@ pub fn plan(tier: Tier, scale: f64) -> TextPlan {
         Tier::Quick => TextPlan {
             exh: vec![("yaml24", 4)],
             exh_block: 25_000,
-            soup: q(200_000),
-            lines: q(100_000),
-            mutations: q(100_000),
+            soup: q(600_000),
+            lines: q(300_000),
+            mutations: q(300_000),
             deepblock: 0,
-            rendered: q(100_000),
+            rendered: q(300_000),
             rand_block: 12_500,
             corpus: true,
         },
